@@ -5839,6 +5839,49 @@ impl DelaunayCheckPolicy {
 }
 
 // =============================================================================
+// VERIFICATION HOOKS: ordering / dedup wrappers (feature "verif-hooks"; off by default)
+// =============================================================================
+
+/// Thin public wrapper around the private ordering strategies (verification harness only).
+#[cfg(feature = "verif-hooks")]
+#[must_use]
+pub fn verif_order_vertices<T, U, const D: usize>(
+    vertices: Vec<Vertex<T, U, D>>,
+    strategy: InsertionOrderStrategy,
+) -> Vec<Vertex<T, U, D>>
+where
+    T: CoordinateScalar,
+    U: DataType,
+{
+    order_vertices_by_strategy(vertices, strategy)
+}
+
+/// Thin public wrapper around the private batch dedup implementations (verification harness only).
+/// `which`: 0 exact/sorted, 1 exact/hash-grid, 2 epsilon/n^2, 3 epsilon/quantized, 4 epsilon/hash-grid.
+/// `grid_cell_size` is the hash-grid cell size for the grid-based variants.
+#[cfg(feature = "verif-hooks")]
+#[must_use]
+pub fn verif_dedup_vertices<T, U, const D: usize>(
+    vertices: Vec<Vertex<T, U, D>>,
+    which: u8,
+    epsilon: T,
+    grid_cell_size: T,
+) -> Vec<Vertex<T, U, D>>
+where
+    T: CoordinateScalar,
+    U: DataType,
+{
+    let mut grid: HashGridIndex<T, D, usize> = HashGridIndex::new(grid_cell_size);
+    match which {
+        0 => dedup_vertices_exact_sorted(vertices),
+        1 => dedup_vertices_exact_hash_grid(vertices, &mut grid),
+        2 => dedup_vertices_epsilon_n2(vertices, epsilon),
+        3 => dedup_vertices_epsilon_quantized(vertices, epsilon),
+        _ => dedup_vertices_epsilon_hash_grid(vertices, epsilon, &mut grid),
+    }
+}
+
+// =============================================================================
 // VERIFICATION HOOKS (feature "verif-hooks"; off by default)
 // =============================================================================
 
